@@ -409,6 +409,9 @@ func genCmd(r *rand.Rand, depth int, name string, used map[string]bool) *CmdNode
 		c.Extra = append(c.Extra, genGroup(r, ns, "", ".", 1, r.Intn(4), true, pick(r, descWords[1:])))
 	}
 	c.Args, c.ArgsReq = genArgs(r)
+	if len(c.Args) > 1 && chance(r, 0.15) {
+		c.ArgSplit = 1 + r.Intn(len(c.Args)-1)
+	}
 	if depth > 0 && chance(r, 0.45) {
 		c.Cmds = genCmds(r, depth-1)
 		c.SubOpt = chance(r, 0.3)
@@ -458,6 +461,9 @@ func genTree(r *rand.Rand, id int) *Tree {
 	}
 	if chance(r, 0.35) || len(root.Cmds) == 0 && chance(r, 0.3) {
 		root.Args, root.ArgsReq = genArgs(r)
+		if len(root.Args) > 1 && chance(r, 0.15) {
+			root.ArgSplit = 1 + r.Intn(len(root.Args)-1)
+		}
 	}
 	t.Root = root
 	// nested groups of commands were generated with "." as delimiter for the uniqueness bookkeeping;
